@@ -240,6 +240,10 @@ func (cw *c17World) drawOutput(c *c17Case) {
 		kinds = []string{"text", "multibyte", "one-call", "two-calls", "call-array", "text+call", "call+text", "wrapped-calls", "json-not-a-call", "unterminated-call", "three-calls", "empty", "one-call", "two-calls", "fenced-calls", "scalar+call"}
 	}
 	c.outKind = kinds[verifsim.Draw("outkind", len(kinds))]
+	if verifsim.Draw("long-output", 40) == 0 {
+		// a long answer (larger than any 64 KiB line buffer): in non-streaming mode it is one line
+		c.outKind = "long-text"
+	}
 	f := c.fam
 	seps := []string{"", "\n", " ", ", ", "\n\n"}
 	sep := func() string { return seps[verifsim.Draw("sep", len(seps))] }
@@ -251,6 +255,9 @@ func (cw *c17World) drawOutput(c *c17Case) {
 		}
 	case "multibyte":
 		c.out = c17Text(true, 10)
+	case "long-text":
+		unit := c17Text(verifsim.Draw("long-mb", 2) == 0, 12) + " "
+		c.out = strings.Repeat(unit, (66000+verifsim.Draw("long-extra", 70000))/len(unit)+1)
 	case "empty":
 		c.out = ""
 	case "json-not-a-call":
@@ -289,7 +296,28 @@ func c17Fragment(s string) ([]string, string) {
 		return nil, "empty"
 	}
 	rs := []rune(s)
-	switch verifsim.Draw("fragmode", 6) {
+	mode := verifsim.Draw("fragmode", 6)
+	if len(rs) > 2000 {
+		// a very long output is delivered in at most seven pieces (never rune by rune: the
+		// run would need more simulated time and steps than its budget)
+		np := 1 + verifsim.Draw("long-pieces", 7)
+		var out []string
+		for i, k := 0, 0; k < np; k++ {
+			n := (len(rs) - i) / (np - k)
+			if k < np-1 && n > 1 {
+				n = 1 + verifsim.Draw("long-cut", 2*n-1)
+				if i+n > len(rs)-(np-k-1) {
+					n = len(rs) - (np - k - 1) - i
+				}
+			} else if k == np-1 {
+				n = len(rs) - i
+			}
+			out = append(out, string(rs[i:i+n]))
+			i += n
+		}
+		return out, "long-output-pieces(" + strconv.Itoa(len(out)) + ")"
+	}
+	switch mode {
 	case 0:
 		return []string{s}, "whole"
 	case 1:
